@@ -31,6 +31,7 @@ def ops_catalogue():
             ("copy", lambda ll: list(H.deep_copy(ll)), lambda s: list(s)),
             ("+[9]", lambda ll: list(ll + [9]), lambda s: s + [9]),
             ("ll[1:]", lambda ll: list(ll[1:]), lambda s: s[1:]),
+            ("copy-peek", "copy-peek", None),
             ("next", "next", None)]
     return ops, [neg(-1), neg(-2)]
 
@@ -48,10 +49,24 @@ def run_history(src, hist, ops, negs):
         entry = [o for o in ops + negs if o[0] == name][0]
         if entry[1] == "next":
             continue
+        if entry[1] == "copy-peek":
+            pass
         if name.startswith("ll[-") and len(model) < int(name[4:-1]):
             continue
         if name == "copy":
             copies.append(H.deep_copy(ll))
+        if name == "copy-peek":  # a copy whose first item is read at once: its iterator over the original stays suspended
+            c = H.deep_copy(ll)
+            copies.append(c)
+            try:
+                got = c[0]
+            except Exception as e:  # noqa
+                got = f"raised {type(e).__name__}"
+            exp = model[0] if model else 0
+            trace.append(name)
+            if got != exp:
+                return dict(source=list(src), history=trace, observation=name, got=repr(got), expected=repr(exp))
+            continue
         try:
             got = entry[1](ll)
         except Exception as e:  # noqa
